@@ -242,3 +242,138 @@ def loc(t):
 def fn_loc(fn):
     s = fn.get("span") or {}
     return "%s:%s" % (s.get("file", "?"), s.get("lo", "?"))
+
+
+# ---------------------------------------------------------------------- helper extraction is not a change
+def _remap_place(pl, lo):
+    return {"l": pl["l"] + lo, "p": [({"idx": p["idx"] + lo} if isinstance(p, dict) and "idx" in p else p) for p in pl["p"]]}
+
+
+def _remap_op(o, lo):
+    if o and o.get("k") in ("copy", "move"):
+        return {"k": o["k"], "pl": _remap_place(o["pl"], lo)}
+    return o
+
+
+def _remap_rv(rv, lo):
+    out = dict(rv)
+    for f in ("a", "b"):
+        if isinstance(out.get(f), dict) and "k" in out[f]:
+            out[f] = _remap_op(out[f], lo)
+    if "pl" in out:
+        out["pl"] = _remap_place(out["pl"], lo)
+    if "ops" in out:
+        out["ops"] = [_remap_op(o, lo) for o in out["ops"]]
+    return out
+
+
+def inline_call(f, bi, g):
+    """Replaces the call terminator of block `bi` of `f` by the body of `g` (locals and blocks renumbered; parameters assigned from the
+    argument operands; every `return` of g assigns the call's destination and continues at the call's target)."""
+    t = f["blocks"][bi]["term"]
+    lo, bo = len(f["locals"]), len(f["blocks"])
+    f["locals"] = f["locals"] + g["locals"]
+    names = dict(f.get("names") or {})
+    for l, n in (g.get("names") or {}).items():
+        names[str(int(l) + lo)] = n
+    f["names"] = names
+    line = (t.get("span") or {}).get("lo")
+    pre = []
+    for i, a in enumerate(t["args"][:g["argc"]]):
+        pre.append({"k": "assign", "dst": {"l": lo + 1 + i, "p": []}, "rv": {"r": "use", "a": a}, "line": line})
+    cont = t["t"]
+    for b in g["blocks"]:
+        nb = {"cleanup": b["cleanup"], "st": []}
+        for st in b["st"]:
+            if st["k"] == "assign":
+                nb["st"].append({"k": "assign", "dst": _remap_place(st["dst"], lo), "rv": _remap_rv(st["rv"], lo), "line": st.get("line")})
+            elif st["k"] == "dead":
+                nb["st"].append({"k": "dead", "l": st["l"] + lo})
+            elif st["k"] == "setdiscr":
+                s2 = dict(st)
+                if "pl" in s2:
+                    s2["pl"] = _remap_place(s2["pl"], lo)
+                nb["st"].append(s2)
+            else:
+                nb["st"].append(st)
+        bt = b["term"]
+        k = bt["k"]
+        if k == "return":
+            nb["st"].append({"k": "assign", "dst": t["dst"], "rv": {"r": "use", "a": {"k": "move", "pl": {"l": lo, "p": []}}}, "line": line})
+            nt = {"k": "goto", "t": cont} if cont is not None and cont >= 0 else {"k": "unreachable"}
+        elif k == "goto":
+            nt = {"k": "goto", "t": bt["t"] + bo}
+        elif k == "switch":
+            nt = dict(bt)
+            nt["d"] = _remap_op(bt["d"], lo)
+            nt["arms"] = [[v, x + bo] for v, x in bt["arms"]]
+            nt["else"] = bt["else"] + bo
+        elif k == "call":
+            nt = dict(bt)
+            nt["args"] = [_remap_op(a, lo) for a in bt["args"]]
+            nt["dst"] = _remap_place(bt["dst"], lo)
+            nt["t"] = bt["t"] + bo if bt["t"] is not None and bt["t"] >= 0 else bt["t"]
+            if isinstance(bt.get("indirect"), dict):
+                nt["indirect"] = _remap_op(bt["indirect"], lo)
+        elif k == "assert":
+            nt = dict(bt)
+            nt["cond"] = _remap_op(bt["cond"], lo)
+            nt["t"] = bt["t"] + bo
+        elif k == "drop":
+            nt = dict(bt)
+            nt["pl"] = _remap_place(bt["pl"], lo)
+            nt["t"] = bt["t"] + bo
+        else:
+            nt = dict(bt)
+        nb["term"] = nt
+        f["blocks"].append(nb)
+    f["blocks"][bi]["st"] = f["blocks"][bi]["st"] + pre
+    f["blocks"][bi]["term"] = {"k": "goto", "t": bo}
+
+
+def absorb_new_functions(F, known):
+    """Functions that did not exist on the reviewed tree (`known` = its function keys) are private helpers extracted by a later change (or
+    renamed functions): their bodies are inlined into their callers, so that every rule sees the same code whether or not a block of a
+    function was moved into a helper. A new function that is recursive, virtual-only or too deep stays as it is."""
+    known = set(known)
+    new = {k for k, fn in F.fns.items() if k not in known and fn["kind"] != "Closure" and not re.search(r"#\d+$", k)}
+    new = {k for k in new if not any(n == k for _b, t in F.calls(k) for n in callee_names(t))}  # not directly recursive
+    if not new:
+        return []
+    absorbed = set()
+    for _round in range(3):
+        changed = False
+        for k, fn in list(F.fns.items()):
+            bi = 0
+            while bi < len(fn["blocks"]) and len(fn["blocks"]) < 4000:
+                b = fn["blocks"][bi]
+                t = b["term"]
+                if t["k"] == "call" and not b["cleanup"] and not t.get("virtual"):
+                    g = next((n for n in callee_names(t) if n in new and n != k), None)
+                    if g is not None and len(t["args"]) == F.fns[g]["argc"]:
+                        inline_call(fn, bi, F.fns[g])
+                        for c, cf_ in F.fns.items():
+                            if cf_.get("parent") == g:
+                                cf_["parent"] = k
+                        fn.pop("_guards", None)
+                        absorbed.add(g)
+                        changed = True
+                bi += 1
+        if not changed:
+            break
+    F.absorbed_fns = {g: F.fns[g] for g in absorbed}
+    for g in absorbed:
+        F.fns.pop(g, None)
+        for c in F.by_crate.values():
+            if g in c:
+                c.remove(g)
+    callers = collections.defaultdict(list)
+    for k, fn in F.fns.items():
+        for bi, b in enumerate(fn["blocks"]):
+            t = b["term"]
+            if t["k"] == "call" and not b["cleanup"]:
+                for name in t.get("names", []):
+                    callers[name].append((k, bi))
+    F.callers = dict(callers)
+    F.absorbed = sorted(absorbed)
+    return F.absorbed
